@@ -331,7 +331,7 @@ fn run_shard(ctx: &ShardCtx) {
 
     ctx.run_prop(
         "classify-random",
-        ctx.tier.pick(1_000_000, 10_000_000),
+        ctx.tier.pick(4_000_000, 30_000_000),
         proptest::collection::vec(token_strategy(false), 0..12),
         |l| json!({"tokens": l}),
         |list| {
